@@ -133,6 +133,10 @@ type Opt struct {
 	// Text: compare the decoded bytes of every cell that carries a reference
 	// Text with that text, and require a non-nil slice (C13).
 	Text bool
+	// WalkErrorOK: the cells are outside what the value decoder supports (an
+	// opaque JSON field type it does not render): it may refuse them with an
+	// error. If it accepts them, every size clause still applies.
+	WalkErrorOK bool
 }
 
 // Mismatch is the result of one comparison: Class names the oracle clause that
@@ -280,6 +284,9 @@ func cmpImage(row int, which string, img ref.Image, present []bool, got []byte, 
 	}
 	cols, pos, err := Walk(got, gotPresent, gotNulls, tm, unsigned)
 	if err != nil {
+		if opt.WalkErrorOK {
+			return Mismatch{}
+		}
 		return mis("walk-error", "row %d %s image: %v", row, which, err)
 	}
 	for c := range img {
